@@ -72,3 +72,6 @@ func Verif_C09_RpmScripts() {
 
 // Verif_C08_RpmFlags: every entry type gets exactly its rpm file flag (config / noreplace / missingok / ghost).
 func Verif_C08_RpmFlags() { verifRpmPayload(scen.Options{SymType: true, Second: -2}) }
+
+// Verif_C08_RpmDocFlags: doc, licence/license and readme entries carry exactly their flag (and exist only in rpm).
+func Verif_C08_RpmDocFlags() { verifRpmPayload(scen.Options{Second: -3}) }
